@@ -5,7 +5,7 @@
 From Coq Require Import List NArith Bool Lia Arith ZifyBool ZifyN ZifyNat.
 From Coq Require Import Strings.Byte.
 From Falco Require Import Base.Res Base.Bytes Base.Utf8 Proofs.Utf8Proofs Gen.Tokens Model.Lex
-  Proofs.LexProgress.
+  Proofs.LexProgress Proofs.C20Classes.
 From Falco Require Proofs.EscapeProofs.
 Import ListNotations.
 Local Open Scope N_scope.
@@ -152,7 +152,7 @@ Proof.
   induction ws as [|b ws IH]; simpl; intros H; [split; [constructor | reflexivity]|].
   apply andb_true_iff in H. destruct H as [Hb Hws]. destruct (IH Hws) as [A B]. split.
   - constructor; [|exact A]. unfold blank in Hb. unfold ascii. lia.
-  - rewrite B, andb_true_r. unfold blank in Hb. unfold is_space. exact Hb.
+  - rewrite B, andb_true_r. unfold blank in Hb. cls. exact Hb.
 Qed.
 
 (* a byte that starts a token: ASCII and not a blank *)
@@ -231,7 +231,7 @@ Proof.
   assert (Ha : ascii x2f) by (unfold ascii; cbn; lia).
   destruct (ab_ascii st x2f _ Hab Ha) as [Hch _].
   pose proof (peek_char_at st x2f d t Hab Ha) as Hpk.
-  unfold is_decimal, in_rng in Hd.
+  cls in Hd.
   unfold lex_char. rewrite Hch. cbn. unfold lex_slash. rewrite Hpk.
   replace (b2n d =? 61) with false by lia. replace (b2n d =? 47) with false by lia. replace (b2n d =? 42) with false by lia.
   unfold single, finish. rewrite Hch. cbn.
@@ -318,7 +318,7 @@ Definition digitb (b : byte) : bool := is_decimal (b2n b).
 Definition idchar (b : byte) : bool := letterb b || digitb b.
 
 Lemma idchar_ascii b : idchar b = true -> ascii b.
-Proof. unfold idchar, letterb, digitb, is_letter, is_decimal, in_rng, ascii. lia. Qed.
+Proof. unfold idchar, letterb, digitb, ascii; cls. lia. Qed.
 
 Fixpoint spanb (p : byte -> bool) (s : list byte) : list byte * list byte :=
   match s with
@@ -398,7 +398,7 @@ Proof.
       cbn [app] in Hab. destruct (ab_ascii st d _ Hab Hda) as [Hch _].
       cbn [ident_more]. rewrite Hch.
       assert (Hcont : is_ident_cont (b2n d) = true).
-      { unfold digitb in Hdig. unfold is_ident_cont, is_digit. rewrite Hdig. cbn. rewrite !orb_true_r. reflexivity. }
+      { unfold digitb in Hdig. cls in Hdig. cls. lia. }
       rewrite Hcont.
       destruct (read_identifier_span rest after n (read_char st) (ab_read_ascii st d _ Hab Hda) Hrest He) as (st1 & R1 & Hab1).
       { simpl in Hn. lia. }
@@ -444,10 +444,10 @@ Proof.
     - simpl. destruct after as [|b t]; [reflexivity|]. destruct He as (_ & _ & _ & H33 & _). apply N.eqb_neq. exact H33.
     - simpl. simpl in Hid. apply andb_true_iff in Hid. destruct Hid as [_ Hid].
       apply andb_true_iff in Hid. destruct Hid as [Hx _].
-      unfold idchar, letterb, digitb, is_letter, is_decimal, in_rng in Hx. lia. }
+      unfold idchar, letterb, digitb in Hx; cls in Hx. lia. }
   assert (Hlc : lex_char n st = lex_ident n st (line st) (idx st)).
   { unfold lex_char, lex_default. rewrite Hlet, Hpk, andb_false_r.
-    unfold is_letter, in_rng in Hlet.
+    cls in Hlet.
     repeat match goal with |- context [ch st =? ?k] =>
       replace (ch st =? k) with false by lia end.
     reflexivity. }
@@ -484,7 +484,7 @@ Lemma forall_digit_ascii l : forallb digitb l = true -> Forall ascii l.
 Proof.
   induction l as [|b l IH]; simpl; intros H; [constructor|].
   apply andb_true_iff in H. destruct H as [Hb Hl]. constructor; [|exact (IH Hl)].
-  unfold digitb, is_decimal, in_rng in Hb. unfold ascii. lia.
+  unfold digitb in Hb; cls in Hb. unfold ascii. lia.
 Qed.
 
 Lemma cstep_int digits after :
@@ -505,9 +505,9 @@ Proof.
     - rewrite (ab_nil_ch st' Hab'). split; [reflexivity|]. cbn. intros H. repeat (destruct H as [H|H]; [discriminate H|]). exact H.
     - destruct He as (A & B & C). destruct (ab_ascii st' b t Hab' A) as [-> _]. auto. }
   assert (Hlc : lex_char n st = lex_number n st (line st) (idx st)).
-  { unfold lex_char, lex_default. unfold is_decimal, in_rng in Hdec.
-    assert (Hl : is_letter (ch st) = false) by (unfold is_letter, in_rng; lia).
-    assert (Hdg : is_digit (ch st) = true) by (unfold is_digit, is_decimal, in_rng; lia).
+  { unfold lex_char, lex_default. cls in Hdec.
+    assert (Hl : is_letter (ch st) = false) by (cls; lia).
+    assert (Hdg : is_digit (ch st) = true) by (cls; lia).
     rewrite Hl, Hdg.
     replace ((ch st =? 67) || (ch st =? 87)) with false by lia. cbn [andb].
     repeat match goal with |- context [ch st =? ?k] => replace (ch st =? k) with false by lia end.
@@ -519,7 +519,7 @@ Proof.
     - simpl. destruct after as [|b t]; [reflexivity|]. destruct He as (_ & _ & C).
       apply orb_false_iff. split; apply N.eqb_neq; intros E; apply C; rewrite E; cbn; tauto.
     - simpl. simpl in Hds. apply andb_true_iff in Hds. destruct Hds as [Hx _].
-      unfold digitb, is_decimal, in_rng in Hx. lia. }
+      unfold digitb in Hx; cls in Hx. lia. }
   rewrite Hpk, andb_false_r. unfold read_mantissa.
   destruct (read_while_ascii is_decimal nz_decimal (d :: ds) n st after Hab Hasc Hd) as (st1 & R & Hab1).
   { destruct after as [|b t]; [exact I|]. destruct He as (A & B & _). split; assumption. }
